@@ -22,7 +22,7 @@ META = dict(
           "chaiscript_parser.hpp on every run and are exactly C's [operator_table_is_C, operator_function_shape, binary_levels_disjoint]; for EVERY well-formed expression tree "
           "(atoms, prefix, binary of any level, conditionals; any size and nesting) the model of Operator(0) rebuilds exactly the tree from its token string printed with the "
           "fewest parentheses C allows and stops before whatever follows [precedence_roundtrip, chai_precedence_roundtrip: induction over the tree with a descent lemma over the "
-          "levels]; so two different trees never share a token string [tokens_determine_tree]; grouping spelled out on the table [grouping_on_chai_table]. Tie: (C) printed trees "
+          "levels]; chains of assignments (the twelve symbols of Equation(), regenerated [assignment_symbols_are_C]) nest to the right around such expressions [equation_roundtrip]; so two different trees never share a token string [tokens_determine_tree]; grouping spelled out on the table [grouping_on_chai_table]. Tie: (C) printed trees "
           "and token soups (redundant / missing parentheses, doubled operators) through the real parser without optimizer, `chaimodel prec` and an independent precedence-climbing "
           "reference with C's table: trees, node kinds (Logical_And / Logical_Or / Binary / If / Prefix) and accept / reject must agree."),
     note=("Trusted: the two Python reference interpreters (independent of the engine and of each other), gen/coregen.py, gen/progs.py, harness/evalprog.cpp; Lean kernel and "
@@ -62,9 +62,12 @@ def prec_stage(ctx, n):
     cases, specs, texts = [], [], []
     for i in range(n):
         if i % 3 != 2:
-            e = precgen.gen_tree(rng, rng.range(1, 6))
-            ts = precgen.toks(e)
-            want = "ok " + precgen.show(e)
+            if i % 7 == 3:
+                ts, want = precgen.gen_chain(rng, rng.range(1, 4))
+            else:
+                e = precgen.gen_tree(rng, rng.range(1, 6))
+                ts = precgen.toks(e)
+                want = "ok " + precgen.show(e)
             ref = precgen.ref_parse(ts)
             if ref != want:      # the two specifications (printer and reference parser) must agree with each other first
                 ctx.oblige("reference parser reads back the printer", False, "%s: %s vs %s" % (precgen.text(ts), ref, want))
